@@ -191,6 +191,56 @@ def run(ctx, col: Collector):
                           f'written inside a single-line literal, which the reader rejects', node=s.node, file=s.fn.file)
     guarded(col, 'C13-sink', 'dbml-sinks', dbml_sinks)
 
+    # ---------------------------------------------------------------- C13-indent
+    def indentation():
+        ti: TemplateIndex = state['ti']
+        envs = state['envs']
+        sinks = text_sinks(ctx, ti, envs, state['rc'], state['pairs'])
+        indented, local_vars = indented_functions(ctx, ti, envs)
+        col.stat('functions_whose_output_is_indented', len(indented))
+        col.floor('C13-indent', 'functions whose output is re-indented by a caller', len(indented), 4)
+        # classes whose text is normalised (common indentation removed) when parsed
+        normalised: Set[str] = set()
+        for cname, model in (('NoteBlueprint', 'Note'), ('StickyNoteBlueprint', 'StickyNote')):
+            ci = idx.cls('pydbml.parser.blueprints', cname)
+            pf = ci.methods.get('_preformat_text')
+            if pf is not None and any(isinstance(c, ast.Call) and norm(c.func) == 'remove_indentation' for c in ast.walk(pf.node)):
+                normalised.add(model)
+        groups: Dict[str, List[Tuple[Sink, str]]] = {}
+        for s, label in sinks:
+            groups.setdefault(f'{label}@{s.fn.qualname}', []).append((s, label))
+        n = 0
+        TQ = "'" * 3
+        for base, members in sorted(groups.items()):
+            s, label = members[0]
+            is_ind = s.fn.id in indented
+            for ms, _ in members:
+                # locally: the statement that holds the sink feeds a variable that is passed to indent() later
+                for st in walk_no_nested(ms.fn.node):
+                    if isinstance(st, (ast.Assign, ast.AugAssign)) and any(x is ms.node for x in ast.walk(st)):
+                        tv = norm(st.targets[0]) if isinstance(st, ast.Assign) else norm(st.target)
+                        if tv in local_vars.get(ms.fn.id, set()):
+                            is_ind = True
+            if not is_ind:
+                continue
+            finals = []
+            for ms, _ in members:
+                finals.extend(ti.expand(ms))
+            multi = [f for f, w in finals if f.quote == TQ]
+            if not multi:
+                continue          # single-line only: nothing to re-indent
+            n += 1
+            cls = label.split('.')[0]
+            fresh = all(f.left.endswith(TQ + '\n') for f in multi)
+            ok = cls in normalised and fresh
+            why = ('the text is not normalised when parsed' if cls not in normalised else
+                   'the literal opens in the middle of a line, so its first line is not indented with the rest and the common indentation cannot be removed again')
+            col.check(ok, 'C13-indent', base, f'{label}: a multi-line value is written on fresh lines and de-indented again by the parser',
+                      f'{label} written by {s.fn.qualname} can span lines and the text it is part of is passed through indent() afterwards; {why}: '
+                      f'every continuation line comes back with the added indentation (the text drifts on each parse/render cycle)', node=s.node, file=s.fn.file)
+        col.floor('C13-indent', 'multi-line text sinks under indent()', n, 4)
+    guarded(col, 'C13-indent', 'indentation', indentation)
+
     # ---------------------------------------------------------------- C13-sql
     def sql_sinks():
         ti: TemplateIndex = state['ti']
@@ -389,3 +439,64 @@ def indentation_remover(ri: FuncInfo) -> Tuple[bool, str]:
     if not joins or (sep is not None and joins[-1].func.value.value != sep):
         return False, f'lines are split on {sep!r} but joined with {joins[-1].func.value.value!r}' if joins else 'lines are not joined back'
     return True, ''
+
+
+def indented_functions(ctx, ti: TemplateIndex, envs) -> Tuple[Set[str], Dict[str, Set[str]]]:
+    """(ids of DBML render functions whose returned text is passed through indent() by some caller - transitively
+    including the helpers they call -, per function the local variables that are passed to indent())."""
+    idx = ctx.idx
+    funcs = {fid: fi for fid, fi in ti.funcs.items() if fi.module.startswith(DBML)}
+    reg = {}
+    for rid, table in idx.registry.items():
+        if '.dbml.' in idx.classes[rid].module:
+            reg = table
+    indented: Set[str] = set()
+    local_vars: Dict[str, Set[str]] = {}
+
+    def sources(fi: FuncInfo, e: ast.AST, depth: int = 0):
+        for n in ast.walk(e):
+            if isinstance(n, ast.Call):
+                f = n.func
+                if isinstance(f, ast.Name):
+                    t = ti.resolve_func(fi, f.id)
+                    if t is not None and t.id in funcs:
+                        indented.add(t.id)
+                if isinstance(f, ast.Attribute) and f.attr == 'render' and n.args:
+                    ap = access_path(n.args[0])
+                    if ap:
+                        for t in flows.type_of_path(ctx, fi, ap, envs.get(fi.id, {})):
+                            for g in reg.get(t, []):
+                                indented.add(g.id)
+            if isinstance(n, ast.Attribute) and n.attr == 'dbml':
+                ap = access_path(n.value)
+                if ap:
+                    for t in flows.type_of_path(ctx, fi, ap, envs.get(fi.id, {})):
+                        for g in reg.get(t, []):
+                            indented.add(g.id)
+            if isinstance(n, ast.Name) and isinstance(n.ctx, ast.Load) and depth < 3:
+                for st in walk_no_nested(fi.node):
+                    if isinstance(st, ast.Assign) and norm(st.targets[0]) == n.id:
+                        local_vars.setdefault(fi.id, set()).add(n.id)
+                        sources(fi, st.value, depth + 1)
+                    if isinstance(st, ast.AugAssign) and norm(st.target) == n.id:
+                        local_vars.setdefault(fi.id, set()).add(n.id)
+                        sources(fi, st.value, depth + 1)
+    for fid, fi in funcs.items():
+        for c in ast.walk(fi.node):
+            if isinstance(c, ast.Call) and isinstance(c.func, ast.Name) and c.func.id == 'indent' and c.args:
+                sources(fi, c.args[0])
+    # helpers called by an indented function contribute to its output
+    changed = True
+    while changed:
+        changed = False
+        for fid in list(indented):
+            fi = funcs.get(fid)
+            if fi is None:
+                continue
+            for c in ast.walk(fi.node):
+                if isinstance(c, ast.Call) and isinstance(c.func, ast.Name):
+                    t = ti.resolve_func(fi, c.func.id)
+                    if t is not None and t.id in funcs and t.id not in indented:
+                        indented.add(t.id)
+                        changed = True
+    return indented, local_vars
